@@ -255,8 +255,9 @@ def _table_case(draw):
         parts.append('%' + names[i])
     const_leaf = draw(st.integers(0, 3)) == 0
     if const_leaf:
-        parts.append(draw(st.sampled_from(['k', 'v'])))
-        parts.append(draw(st.sampled_from(['m', 'f'])))
+        if draw(st.booleans()):
+            parts.append(draw(st.sampled_from(['k', 'v'])))      # .../%w/k/m : a fixed key, then a fixed leaf
+        parts.append(draw(st.sampled_from(['m', 'f'])))          # or .../%w/m : the wildcard is followed directly by the fixed leaf
     nrows = draw(st.integers(0, 5))
     keyv = st.sampled_from(['p', 'q', 'r'])
     leafv = st.one_of(st.integers(0, 5), st.sampled_from(['L', 'M']), st.none())
@@ -304,7 +305,9 @@ def run_table(spec):
     if rows:
         d = call('dictable(tree, %r)' % pattern, dictable, tree, pattern)
         check(ms(list(d)) == ms(rows), 'dictable(%s, %r) = %s, expected the rows %s', tree, pattern, list(d), rows)
-    return dict(nt=len(rows) >= 2 and len(names) >= 2, cls=['wildcards=%i' % len(names), 'rows=%i' % min(len(rows), 3), 'const_leaf' if spec['const_leaf'] else 'wild_leaf'])
+    parts = pattern.split('/')
+    shape = 'wild_leaf' if not spec['const_leaf'] else ('const_leaf_after_wildcard' if parts[-2].startswith('%') else 'const_leaf_after_key')
+    return dict(nt=len(rows) >= 2 and len(names) >= 2, cls=['wildcards=%i' % len(names), 'rows=%i' % min(len(rows), 3), shape])
 
 
 SUBS = [
@@ -320,5 +323,5 @@ SUBS = [
     Sub('table_tree', lambda tier: _table_case(), run_table, quick=2500, thorough=15000,
         rule='patterns with 1-4 wildcards interleaved with constants, rows with unique paths; oracle: independent tree construction, round trip both ways as multisets, dictable(tree, pattern) agrees. '
              'non-trivial = >= 2 rows and >= 2 wildcards',
-        floor=0.15),
+        floor=0.15, class_floors={'const_leaf_after_wildcard': 0.05, 'const_leaf_after_key': 0.05}),
 ]
